@@ -59,9 +59,16 @@ theorem C13_browser_question (cache : List Rec) (h : History) (now : Int) (qu : 
     rw [← this]
     exact ⟨rfl, rfl, fun hn => wire_of_known lower cache ty 12 1 now _ (browser_answer_time_eq now) hn⟩
 
-/-- **Suppression, exactly.**  A browser question is omitted iff it is QM and this instance's history holds the
-same question, asked (or heard as responder) at most 999 ms ago, with a known-answer list of which every
-record is among the known answers we would send.  In particular QU questions are never suppressed. -/
+/-- **Suppression, exactly — w.r.t. the history *state*.**  A browser question is omitted iff it is QM and this instance's history
+holds the same question with a time at most 999 ms ago and a known-answer list of which every record is among the known answers we
+would send.  In particular QU questions are never suppressed.
+The history is a dict: it holds the **last** sighting of a question only.  The property's sentence speaks of *any* sighting within
+the previous 999 ms; the link between the state and "asked it, or heard it" over whole runs is `C13_run_suppress_iff`
+(`Props/C13Run.lean`), and the sentence itself is `C13.suppress_any_sighting_full` — false (finding D13b), proved outside the finding's
+class as `C13_suppress_any_sighting_partial`.
+Reading, named: "a known-answer list that contained nothing it does not know itself" is read as "nothing it would not list itself as a
+known answer *to this question*" (RFC 6762 §7.3: "would not also put in its own Known-Answer Section") — a heard multi-question query
+whose list holds records of another question is therefore not covered by our list for this question, although the cache holds them. -/
 theorem C13_suppress_iff (cache : List Rec) (h : History) (now : Int) (qu : Bool) (ty : String) :
     (askType lower cache h now qu ty).1 = none ↔
       qu = false ∧ ∃ e, h.get lower { name := ty, type := 12, class_ := 1, unique := qu } = some e ∧ now - e.time ≤ 999 ∧
@@ -292,8 +299,12 @@ theorem C13_regime_reached (l : Loop) (forced : Option Bool) (now : Int) (d : Na
     rcases hd with hd | hd <;> rw [hd] <;> simp
 
 /-- **Split over packets (partial).**  The bucket grouping puts every question (with its known answers) into exactly
-one outgoing message: the buckets' contents are a permutation of the input.  Missing: the TC bit and the packet
-boundaries inside one message are `DNSOutgoing.packets()` (C14's model); the harness checks them on the real packets. -/
+one outgoing message: the buckets' contents are a permutation of the input (true of any placement: the content of this theorem is only
+that nothing is lost or doubled by the grouping).  "Partial" here is not a finding but an open clause: the size estimates are inputs, and
+the TC bit and the packet boundaries inside one message are `DNSOutgoing.packets()` — C14's model, composed with the query messages of
+browsers **and lookups** in `C13_split_on_wire_partial` (`Props/C13Run.lean`; its hypotheses are C14's well-formedness conditions on the
+message).  The harness checks TC bits, sizes, completeness and TTLs on the real packets of browser queries (`svc`) and of lookup
+queries (`req`, `loop` with 60–300 cached address records). -/
 theorem C13_split_partial (m : Nat) (items : List (Nat × QOut)) :
     ((group m items).flatMap (·.items)).Perm items := by
   have := foldl_place_perm m items []
